@@ -113,7 +113,7 @@ def run_case(case, ch: Choices) -> RunResult:
             kw["env"] = dict(kw.get("env") or {}, **_user_cfg[0])
         # (only for projects whose non-ASCII text cannot reach the generated files: on this tree the package writer uses the
         # locale's encoding, so others fail under an ASCII locale - an observation outside the claimed properties)
-        if _loc[0] is not None and world.get("locale_safe"):
+        if _loc[0] is not None and (world.get("locale_safe") or world.get("locale_may_fail")):
             kw.setdefault("proc_env", genrun.LOCALE_ENVS[_loc[0] % len(genrun.LOCALE_ENVS)])
         return _rc(*a, **kw)
     try:
@@ -161,7 +161,7 @@ def run_case(case, ch: Choices) -> RunResult:
                     st["crash_at"] = 1 + ch.draw("env.crash_at", max(1, writes0))
                     st["crash_kind"] = ch.pick("env.crash_kind", ["crash", "enospc", "eio", "torn", "torn", "empty", "torn_anywhere", "enospc_anywhere", "kill", "kill"])
             envs.append(st)
-            _loc[0] = (st.get("hashseed") or 0) + si if world.get("locale_safe") else None
+            _loc[0] = (st.get("hashseed") or 0) + si if (world.get("locale_safe") or world.get("locale_may_fail")) else None
             _user_cfg[0] = None
             if ((st.get("hashseed") or 0) + si) % 3 == 0:
                 # the user running this step has personal formatter settings (black's user-level file, an isort.cfg, an
@@ -376,6 +376,12 @@ def run_case(case, ch: Choices) -> RunResult:
             if _peer_fault[0] is not None and got["exit"] != 0 and ref["exit"] == 0:
                 res.bump("steps.failed_under_transient_peer_fault")
                 continue        # the endpoint failed this run: no generation happened; only a COMPLETED generation is compared
+            if world.get("locale_may_fail") and _loc[0] is not None and ref["exit"] == 0 and got["exit"] != 0 \
+                    and got["exc_type"] in ("UnicodeEncodeError", "UnicodeDecodeError"):
+                # a locale that cannot encode the project's text: on this tree the generation fails (observation outside the
+                # claimed properties).  What the property asks of a generation that COMPLETES - identical bytes - is still asked.
+                res.bump("steps.failed_under_a_locale_that_cannot_encode_the_text")
+                continue
             if got["exit"] != ref["exit"] or got["exc_type"] != ref["exc_type"]:
                 res.violations.append(Violation("outcome-differs", "step %d (%s): exit %s / %s, reference exit %s / %s; message %r" % (
                     si, json.dumps(st), got["exit"], got["exc_type"], ref["exit"], ref["exc_type"], got["exc_msg"]), key))
